@@ -61,6 +61,23 @@ def nets_for_hp(ntoks):
     return out
 
 
+def net_weight_codes(ntoks):
+    """'nn (d (c xo yo)*d w2)*' -> [w2]   (w2 >= 0: weight w2/2, 0 = weight zero; w2 < 0: weight 2^w2; harness/cgen.hpp)"""
+    out = []; q = 1
+    for _ in range(int(ntoks[0])):
+        d = int(ntoks[q]); q += 1 + 3 * d + 1
+        out.append(int(ntoks[q - 1]))
+    return out
+
+
+def weight_summary(netlists):
+    ws = [net_weight_codes(n) for n in netlists]
+    return {"circuits_with_a_net_of_weight_0": sum(1 for w in ws if 0 in w), "nets_of_weight_0": sum(w.count(0) for w in ws),
+            "circuits_with_a_net_of_tiny_weight_2^-1..2^-140": sum(1 for w in ws if any(x < 0 for x in w)),
+            "nets_of_tiny_weight": sum(sum(1 for x in w if x < 0) for w in ws),
+            "of_which_denormal_below_2^-126": sum(sum(1 for x in w if x < -126) for w in ws), "nets": sum(len(w) for w in ws)}
+
+
 def hp_case(cells, pl, frozen_o, ntoks):
     """HP case with positions from pl (x y o triples) and orientation from frozen_o"""
     parts = [str(len(cells))]
@@ -247,4 +264,5 @@ def summary(res):
     d = {k: res[k] for k in ("runs", "noleg", "ops", "best_ops", "pass_ops", "accepted", "op_kinds", "runs_value_ge_2p31", "runs_value_ge_2p32",
                              "reordering_ops_at_value_ge_2p31", "reordering_ops_at_value_ge_2p31_changing_placement")}
     d["shift_lp"] = lp_summary(res["lp"])
+    d["net_weights"] = weight_summary([split_do(l)[1] for l in res["lines"]])
     return d
